@@ -597,6 +597,8 @@ class Command(Frame):
         """Constructor to get a log entry from a system (c.f. parser_0418)."""
 
         log_idx = log_idx if isinstance(log_idx, int) else int(log_idx, 16)
+        if not 0 <= log_idx <= 0x3F:  # the fault log has 64 entries
+            raise exc.CommandInvalid(f"Invalid value for log_idx: {log_idx}")
         return cls.from_attrs(RQ, ctl_id, Code._0418, f"{log_idx:06X}")
 
     @classmethod  # constructor for I|0418 (used for testing only)
